@@ -22,7 +22,7 @@ EXPLANATION = (
 SUP_RULES = ("SEED-", "IFT-domain", "IFT-extension", "IFT-pred", "IFT-order", "IFT-cost", "IFT-policy", "IFT-graph", "IFT-guard",
              "PRIM-guard",
              "IFT-update-sites", "PRIM-mark", "PRIM-key", "PRIM-domain", "PRIM-pred", "PRIM-policy", "PRIM-start",
-             "SCAN-")
+             "SCAN-", "FIT-fresh")
 
 
 def check_supervised_premises(chk, rep, repo):
@@ -37,6 +37,10 @@ def check_supervised_premises(chk, rep, repo):
     trep = Rep(tmp, repo)
     w, comps = competitions_of(repo, "SupervisedOPF", "fit", 2)
     check_prim(trep, "", comps[0])
+    # the forest is grown over the caller's samples with the caller's labels and row identifiers (predicting "the
+    # training set" means these very rows)
+    from ..common import check_fresh_graph
+    check_fresh_graph(trep, w, comps[0].loop.first_seq)
     check_seeding(trep, "", comps[-1], repo)
     check_fmax_competition(trep, "", comps[-1])
     deferred = None
